@@ -215,6 +215,44 @@ Definition check_k8s (f7 f8 : bool) (c : k8s_case) : verdict :=
      v_guards := guards [(7%Z, negb f7 && k8s_guard_F7 nn (kc_hist c));
                          (8%Z, negb f8 && k8s_guard_F8 nn (kc_hist c))] |}.
 
+(** ** Kubernetes provider -> real processor -> real factory -> real repository *)
+Record k8r_case := {
+  kr_case : k8s_case;
+  kr_skip : nat;                              (* leading events (initial list) without a snapshot of their own *)
+  kr_active : list (list (option cid)) }.     (* what the repository holds per UID after each further event *)
+
+Definition k8r_uids := seq 0 24.
+
+(** after the events [h]: what the ideal repository holds according to the model's calls ... *)
+Definition k8s_model_active (O : oracle) (f7 f8 : bool) (nn : nat) (h : list k8s_event) : list (option cid) :=
+  let tr := k8s_raw_trace O f7 f8 nn h in map (fun u => active_of tr (Sid u)) k8r_uids.
+
+(** ... and according to the specification: the latest valid content seen of each object (from the history alone) *)
+Definition k8s_spec_active (acc : cid -> bool) (nn : nat) (h : list k8s_event) : list (option cid) :=
+  let atoms := k8s_atoms_from nn ks_empty h in
+  let tr := mk_trace (k8s_atom_views ks_empty atoms) (map (fun _ => []) atoms) in
+  map (fun u => latest_valid acc (seen_of tr (Sid u))) k8r_uids.
+
+Definition prefixes_from {A} (k : nat) (h : list A) : list (list A) :=
+  map (fun i => firstn i h) (seq (S k) (length h - k)).
+
+Definition check_k8sr (f7 f8 : bool) (c : k8r_case) : verdict :=
+  let kc := kr_case c in
+  let O := mk_oracle (kc_rej kc) (kc_undel kc) in
+  let v := check_k8s f7 f8 kc in
+  let lo := list_eqb (option_eqb Nat.eqb) in
+  let pre := prefixes_from (kr_skip c) (kc_hist kc) in
+  (* outside k8s_wf (deliveries an API server does not make, e.g. a second creation of a loaded object) the real
+     repository is not the ideal one (AddRuleSet appends): only the calls are compared there *)
+  {| v_corr := v_corr v && (negb (k8s_wf (kc_nn kc) (kc_hist kc)) ||
+                            list_eqb lo (map (k8s_model_active O f7 f8 (kc_nn kc)) pre) (kr_active c));
+     (* after every event the repository holds, for every object, the latest valid content seen of it *)
+     v_prop := negb (k8s_wf (kc_nn kc) (kc_hist kc)) ||
+               (v_prop v && list_eqb lo (map (k8s_spec_active (accepts O) (kc_nn kc)) pre) (kr_active c));
+     v_guards := v_guards v |}.
+
+Definition k8r c k a := {| kr_case := c; kr_skip := k; kr_active := a |}.
+
 Definition ko n u cls gen c := {| k_name := n; k_uid := u; k_cls := cls; k_gen := gen; k_cid := c |}.
 Definition wA := KWatch WAdded. Definition wM := KWatch WModified. Definition wD := KWatch WDeleted.
 Definition wR := KRelist.
